@@ -1246,6 +1246,10 @@ func (p *Parser) parseBinding(decl DeclType) (binding IBinding) {
 		p.next()
 	} else if p.tt == OpenBracketToken {
 		p.next()
+		// inside a pattern default values may use the in operator, also in the head of a for statement
+		prevIn := p.in
+		p.in = true
+		defer func() { p.in = prevIn }()
 		array := BindingArray{}
 		if p.tt == CommaToken {
 			array.List = append(array.List, BindingElement{})
@@ -1285,6 +1289,9 @@ func (p *Parser) parseBinding(decl DeclType) (binding IBinding) {
 		binding = &array
 	} else if p.tt == OpenBraceToken {
 		p.next()
+		prevIn := p.in
+		p.in = true
+		defer func() { p.in = prevIn }()
 		object := BindingObject{}
 		for p.tt != CloseBraceToken {
 			// binding rest property
